@@ -98,6 +98,12 @@ def mergeOrder (cs : List (Change Ref)) : List (Change Ref) :=
     (srt rank0 ++ srt rank1).map (·.2)
   else cs
 
+/-- the int64 prune version clamped at 0 (`PruneBelowVersion` returns at once for `version <= 0`) -/
+def pruneVersion (v : String) : Nat :=
+  match v.toInt? with
+  | some (.ofNat n) => n
+  | _ => 0
+
 def lastSaved (s : St) : Bytes × Node :=
   match s.saved.getLast? with
   | some (_, r, t) => (r, t)
@@ -188,11 +194,11 @@ def step (s : St) (w : List String) : St × String :=
       if resolvesFast (Map.get s.ps.nodes) tree then (s, "ok " ++ fmtPairs (iterate tree [])) else (s, "missing")
     | none => (s, "bad-op")
   | ["prune", v] =>
-    let s' := { s with ps := s.ps.applyAll (pruneStream maxPrune s.ps v.toNat!) }
+    let s' := { s with ps := s.ps.applyAll (pruneStream maxPrune s.ps (pruneVersion v)) }
     (s', "ok n=" ++ nodeCount s')
   | ["crash-prune", v, k] =>
-    let ps1 := s.ps.applyAll ((pruneStream maxPrune s.ps v.toNat!).take k.toNat!)
-    let s' := { s with ps := ps1.applyAll (pruneStream maxPrune ps1 v.toNat!) }
+    let ps1 := s.ps.applyAll ((pruneStream maxPrune s.ps (pruneVersion v)).take k.toNat!)
+    let s' := { s with ps := ps1.applyAll (pruneStream maxPrune ps1 (pruneVersion v)) }
     (s', "ok n=" ++ nodeCount s')
   | ["pstore"] => (s, pstoreLine s)
   | _ => (s, "bad-op")
